@@ -71,6 +71,15 @@ func HarnessC11Resolve() {
 				verif.Assert("no-value-on-error", got == nil)
 			}
 		case 2:
+			// the selected version comes with or without a pre-release tag and build metadata (all
+			// of it is part of the version the result must carry)
+			c11Version := versions.Version{Major: 1, Minor: 2, Patch: 3}
+			if verif.Bool("ver.pre") {
+				c11Version.Prerelease = "rc1"
+			}
+			if verif.Bool("ver.meta") {
+				c11Version.Metadata = "build.7"
+			}
 			base := RegistrySource{pkg: c11RegPkg, subPath: sub}.Versioned(c11Version)
 			got, err := ResolveRelativeFinalSource(base, rel)
 			gotErr = err
